@@ -63,12 +63,16 @@ class Driver:
         self.model = self.actor.call(make)
         return self.model
 
-    def build_xlsx(self, spec, stored, overrides=None, name='book.xlsx'):
+    def build_xlsx(self, spec, stored, overrides=None, name='book.xlsx', cycles=None):
         from pycel import ExcelCompiler
         path = os.path.join(self.tmpdir, name)
         wbgen.to_xlsx(spec, path, stored, overrides)
-        self.model = self.actor.call(
-            lambda: ExcelCompiler(filename=path, plugins=self.plugins))
+
+        def make():
+            if cycles is None:
+                return ExcelCompiler(filename=path, plugins=self.plugins)
+            return ExcelCompiler(filename=path, plugins=self.plugins, cycles=cycles)
+        self.model = self.actor.call(make)
         return self.model
 
     # -- operations -----------------------------------------------------------
